@@ -16,7 +16,7 @@ func (x *Exec) builtin(fr *frame, b *ssa.Builtin, args []Value, c *ssa.CallCommo
 		switch v := args[0].(type) {
 		case *Str:
 			if v.opaque != "" || v.inj != nil {
-				panic(unsupported{"len of opaque string"})
+				panic(unsupported{"len of opaque string (" + v.opaque + ") in " + fr.fn.String()})
 			}
 			return mkBV(64, uint64(len(v.b)))
 		case Slice:
